@@ -293,6 +293,28 @@ PROPS["C07"] = {
     "level_note": "Trusted: Lean kernel, synctest, harness. The correspondence compares delivered multisets and final transports, not the exact interleaving.",
     "technique": "Lean 4 proof (permutation invariant over all interleavings) + fault-injected upgrade scenarios under virtual time",
 }
+PROPS["C08"] = {
+    "lean": ["SioVerif.Props.C08"],
+    "components": ["timed:TestRecovery"],
+    "facts": [],
+    "timeout": {"quick": 900, "thorough": 3000},
+    "rule": "virtual time, one bubble. Unit: the real session-aware adapter (window 10 s, clean-up period 3 s through the verif constructor): 120 (thorough 5000) random "
+            "histories of namespace / room / excluded broadcasts and persisted sessions, the cleaner running on its own schedule, RestoreSession for every pid (and an unknown "
+            "one) x offsets (every logged id, an unknown id) at instants including session expiry -1 ns / +1 ns; results compared with the model. System: the real server "
+            "with recovery enabled and protocol-level peers: histories of namespace / room / other-room / excluded / direct emits (one of them binary), disconnect after every "
+            "k, reconnect with pid+offset in time, late, or with an unknown offset; the Go client with recovery enabled. Non-trivial = a restore that replays at least one "
+            "packet / every system scenario; distinct by request line / description.",
+    "trusted_base": EXT + ["go1.26.8 testing/synctest (expiry instants exact)", "yeast ids are unique (hypothesis of restore_exact; ids are canonicalised by order of emission)"],
+    "assumptions": ["the adapter's cleaner goroutine cannot be stopped: the component runs in a single bubble and leaves the process after flushing its results"],
+    "partial": ["a missed binary packet is replayed without its attachment (consequence of finding D17)", "the Go client's offset tracking strips user arguments (finding D18)"],
+    "level_text": "Lean 4 theorems over an executable model of the packet log, the sessions and RestoreSession, for every history of broadcasts, persists and any number of "
+                  "clean-up passes at any times: the log is always a suffix of everything logged (the cleaner removes from the front only); a successful restore returns the "
+                  "persisted socket id and rooms and exactly the packets logged after the offset that are addressed to those rooms — all, in order, each once (ids unique); "
+                  "unknown session, expired session and unknown offset yield no recovery; restoring does not modify the log. The real adapter's answers under a virtual clock "
+                  "for thousands of generated restores equal the model's.",
+    "level_note": "Trusted: Lean kernel, synctest, harness. The re-encoding of missed packets on the server socket and the client's offset bookkeeping are exercised by the system scenarios (two open findings).",
+    "technique": "Lean 4 proof (suffix invariant over all histories) + virtual-time differential correspondence",
+}
 
 NOT_APPLICABLE = [
 ]
